@@ -86,4 +86,10 @@ def receiverBlockSymbols (q : Quad) (sbn : Nat) : Nat :=
   let (aL, aS, nL, _) := q
   if sbn < nL then aL else aS
 
+/-- RaptorQ / Raptor: the sender writes `Z = nb_blocks` into the scheme-specific info
+    (src/sender/filedesc.rs `FileDesc::new`), the receiver recomputes the maximum source block length as
+    `div_ceil(div_ceil(F, Z), T)` (src/common/alccodec/alcraptorq.rs, alcraptor.rs `get_fti`, and
+    src/common/fdtinstance.rs for the FDT-borne OTI).  `z = 0` is rejected by the parsers before this point. -/
+def reconstructB (l e z : Nat) : Nat := divCeil (divCeil l z) e
+
 end Flute.Partition
